@@ -401,6 +401,15 @@ def run(ctx):
                 key = json.dumps(tr, sort_keys=True)
                 if key not in traces:
                     traces[key] = (tr, {"script": list(script), "size": size, "min": mn, "schedule": list(ch.names)})
+    # grow / shrink / grow again: the pool must scale up a second time after its surplus workers have retired
+    for (size, mn) in ((2, 1), (3, 1), (3, 2), (2, 2)):
+        for rounds in (2, 3) if size == 2 else (2,):
+            script = (["submit"] * size + ["release"] * size) * rounds
+            for eager, raising in ((False, False), (True, False), (False, True)):
+                ch = S.PreemptionBounded(())
+                tr = run_once(T, config, ch, script, size, mn, eager=eager, raising=raising)
+                runs += 1
+                keep(tr, {"script": list(script), "size": size, "min": mn, "schedule": list(ch.names), "eager": eager, "raising": raising})
     ctx.evaluations = runs
     items = list(traces.values())
     for tr, meta in items:
